@@ -18,6 +18,10 @@ type op struct {
 	N   int    `json:"n,omitempty"`   // entries carried by a save
 	Sz  int    `json:"sz,omitempty"`  // base payload size
 	Big bool   `json:"big,omitempty"` // payload about half a segment
+	// Huge: payloads of 20-45 KiB each, several per save, so that one save exceeds
+	// the 128 KiB page-writer buffer whatever the segment size: part of the batch
+	// reaches the file (page-aligned flushes) before the save's sync
+	Huge bool `json:"huge,omitempty"`
 	Z   bool   `json:"z,omitempty"`   // all-zero payload
 	Ow  int    `json:"ow,omitempty"`  // overwrite that many trailing entries (new term)
 	Tb  bool   `json:"tb,omitempty"`  // bump the term
@@ -38,6 +42,9 @@ func (o op) String() string {
 	}
 	if o.Big {
 		s += " big"
+	}
+	if o.Huge {
+		s += " huge"
 	}
 	if o.Z {
 		s += " zero"
@@ -101,6 +108,14 @@ func genOps(r *core.Rand, n int, seg int64) []op {
 					o.N = 12
 				}
 			}
+			if r.Intn(6) == 0 {
+				o.Huge, o.Big, o.N = true, false, 4+r.Intn(6)
+				if r.Intn(2) == 0 {
+					// ... or as many small records: wherever a partial flush cuts the
+					// batch, the record it cuts ends within a few hundred bytes
+					o.N = 450 + r.Intn(500)
+				}
+			}
 		case x < 68:
 			o = op{K: "hs", C: 1 + r.Intn(3)}
 		case x < 76:
@@ -124,7 +139,9 @@ func genOps(r *core.Rand, n int, seg int64) []op {
 func genBody(seed uint64, tier string) *body {
 	r := core.NewRand(seed)
 	b := &body{}
-	segs := []int64{4096, 4096, 8192, 8192, 16384, 32768, 65536}
+	// (262144: larger than the 128 KiB page-writer buffer, so that the partial flush
+	// of an oversized save lands inside the preallocated, zero-filled part)
+	segs := []int64{4096, 4096, 8192, 8192, 16384, 32768, 65536, 262144}
 	b.Cfg.Seg = segs[r.Intn(len(segs))]
 	b.Cfg.Meta = fmt.Sprintf("meta-%x", r.Uint64()&0xffff)
 	if r.Intn(8) == 0 {
@@ -149,7 +166,9 @@ func genBody(seed uint64, tier string) *body {
 	if tier == "thorough" {
 		b.Cfg.Exhaustive = true
 		n = 4 + r.Intn(14)
-		if b.Cfg.Seg > 16384 {
+		if b.Cfg.Seg == 262144 {
+			b.Cfg.Exhaustive = false // sampled, as in the quick tier
+		} else if b.Cfg.Seg > 16384 {
 			b.Cfg.Seg = 16384
 		}
 	}
@@ -290,6 +309,12 @@ func (m *model) planSave(o op) (st raftpb.HardState, ents []raftpb.Entry, oblige
 		sz := o.Sz
 		if j > 0 {
 			sz = (o.Sz + j*61) % (3*sector + 1)
+		}
+		if o.Huge {
+			sz = 20000 + (o.Sz*37+j*7919)%26000
+			if n >= 100 {
+				sz = 150 + (o.Sz+j*61)%250
+			}
 		}
 		if o.Big {
 			sz = int(m.cfg.Seg/2) + o.Sz - j*97
